@@ -49,6 +49,11 @@ SPECIAL_FENS = [
     "8/7K/8/8/8/8/p6k/1N6 b - - 0 1",
     "4k3/8/8/8/3pP3/8/8/4K3 b - e3 0 1",                       # en passant available
     "4k3/8/8/3Pp3/8/8/8/4K3 w - e6 0 1",
+    "rnbqkbnr/ppp1pppp/8/8/3pP3/8/PPPP1PPP/RNBQKBNR b KQkq e3 0 3",
+    "rnbqkbnr/pppp1ppp/8/3Pp3/8/8/PPP1PPPP/RNBQKBNR w KQkq e6 0 3",
+    "rnbqkbnr/1ppppppp/8/pP6/8/8/P1PPPPPP/RNBQKBNR w KQkq a6 0 3",      # en passant on the a-file
+    "rnbqkbnr/ppppppp1/8/8/6Pp/8/PPPPPP1P/RNBQKBNR b KQkq g3 0 3",      # en passant next to the h-file
+    "rnbqkbnr/ppp1p1pp/8/3pPp2/8/8/PPPP1PPP/RNBQKBNR w KQkq f6 0 3",     # published polyglot test vector
     "7k/5Q2/6K1/8/8/8/8/8 b - - 0 1",                          # stalemate: no legal move
     "7k/6Q1/6K1/8/8/8/8/8 b - - 0 1",                          # checkmate: no legal move
 ]
@@ -204,41 +209,53 @@ def gen_entries_for(rng, p, pool, clean):
     return out
 
 
-def gen_book(rng, pool, fault, residue, max_fill=2500):
-    """-> (bytes or None, target positions, meta).  meta["stored"] maps key -> [(move code, weight)]
-    in file order when the file is well-formed (fault none)."""
+def gen_book(rng, pool, fault, residue, max_fill=2500, n_extra=0):
+    """-> (bytes or None, positions to probe (targets + n_extra others), meta).  meta["stored"] maps key -> [(move code, weight)]
+    in file order when the file is well-formed (fault none / append)."""
     k = rng.choice([1, 1, 2, 3, 5, 8])
     targets = rng.sample(pool, min(k, len(pool)))
-    ents = []
+    probes = targets + rng.sample(pool, min(len(pool), n_extra))
+    recs = []
     kinds = []
     for p in targets:
         clean = rng.random() < 0.65
         for mv, w, kind in gen_entries_for(rng, p, pool, clean):
-            ents.append((p["keyi"], mv, w))
+            recs.append(struct.pack(">QHHI", p["keyi"], mv, w, rng.getrandbits(32) if rng.random() < 0.5 else 0))
             kinds.append(kind)
-    nfill = rng.choice([n for n in [0, 0, 1, 2, 3, 5, 17, 64, 100, 300, 1000, 2500, 20000, 60000] if n <= max_fill])
-    for _ in range(nfill):
+    nfill = rng.choice([n for n in [0, 0, 1, 2, 3, 5, 17, 64, 100, 300, 1000, 2500, 2500, 2500, 20000, 60000] if n <= max_fill])
+    near = 0
+    for _ in range(min(nfill, 120)):
         r = rng.random()
         if r < 0.25 and targets:
             key = (rng.choice(targets)["keyi"] + rng.choice([-2, -1, 1, 2])) % 2 ** 64      # neighbours of a target key
         elif r < 0.3:
             key = rng.choice([0, 1, 2 ** 64 - 1, 2 ** 63])
         else:
-            key = rng.getrandbits(64)
-        ents.append((key, rng.randint(0, 65535), rng.randint(0, 65535)))
-    meta = {"fault": fault, "entries": len(ents), "kinds": kinds, "residue": residue}
+            continue
+        recs.append(struct.pack(">QHHI", key, rng.randint(0, 65535), rng.randint(0, 65535), 0))
+        near += 1
+    bulk_n = nfill - near
+    if bulk_n > 0:
+        bulk = rng.getrandbits(128 * bulk_n).to_bytes(16 * bulk_n, "big")       # random key, move, weight, learn
+        recs += [bulk[i:i + 16] for i in range(0, len(bulk), 16)]
+    meta = {"fault": fault, "entries": len(recs), "kinds": kinds, "residue": residue}
     if fault == "unsorted":
-        rng.shuffle(ents)
+        rng.shuffle(recs)
     elif fault == "reverse":
-        ents.sort(key=lambda e: -e[0])
+        recs.sort(key=lambda c: c[:8], reverse=True)
     else:
-        ents.sort(key=lambda e: e[0])          # stable: order within a key = generation order
-    data = b"".join(struct.pack(">QHHI", k_, m_, w_, rng.getrandbits(32) if rng.random() < 0.5 else 0) for k_, m_, w_ in ents)
+        recs.sort(key=lambda c: c[:8])          # stable: order within a key = generation order
+    data = b"".join(recs)
     if fault in ("none", "append"):
         stored = {}
-        for k_, m_, w_ in ents:
-            stored.setdefault(k_, []).append((m_, w_))
+        want = {struct.pack(">Q", p["keyi"]): p["keyi"] for p in probes}
+        for c in recs:
+            kk = want.get(c[:8])
+            if kk is not None:
+                m_, w_ = struct.unpack(">HH", c[8:12])
+                stored.setdefault(kk, []).append((m_, w_))
         meta["stored"] = stored
+        meta["stored_complete_for"] = set(want.values())
     if fault == "trunc":
         n = len(data) // 16
         keep = rng.randint(0, max(0, n - 1))
@@ -257,7 +274,7 @@ def gen_book(rng, pool, fault, residue, max_fill=2500):
         data = bytes(rng.getrandbits(8) for _ in range(rng.choice([1, 15, 16, 17, 160, 1000])))
     elif fault == "missing":
         data = None
-    return data, targets, meta
+    return data, probes, meta
 
 
 # ---------- running the two sides ----------
@@ -273,6 +290,12 @@ def stash(tmpdir, build, name):
         except FileNotFoundError:
             continue
     raise RuntimeError("build cache entry for %s disappeared three times" % name)
+
+
+def run_model(ml, stream, timeout=1800):
+    """The extracted model recurses over the whole byte list of the file (List.length, skipn):
+    give it a large stack."""
+    return sh(["bash", "-c", 'ulimit -s 4000000 2>/dev/null || ulimit -s unlimited 2>/dev/null; exec "$0"', ml], input=stream, timeout=timeout)
 
 
 def run_harness(exe, stream, timeout=1800):
@@ -349,7 +372,7 @@ def correspond_chunk(seed, cpp, ml, tmpdir, books, ncalls, tag):
         ms.append(pos_line(p))
         ms.append("LEGAL " + " ".join(p["legal"]))
         ms.append("PROBE " + " ".join(str(r) for r, _, _ in R.get("calls", [])))
-    rc2, out2, err2 = sh([ml], input="\n".join(ms) + "\n", timeout=1800)
+    rc2, out2, err2 = run_model(ml, "\n".join(ms) + "\n", timeout=1800)
     mlines = [l for l in out2.split("\n") if l]
     if rc2 != 0 or len(mlines) != len(index):
         return [{"fatal": "model driver rc=%d lines=%d expected=%d err=%s" % (rc2, len(mlines), len(index), err2[-800:]), "books": books}]
@@ -382,7 +405,7 @@ def correspond_chunk(seed, cpp, ml, tmpdir, books, ncalls, tag):
             if m != "0.0.0" and m not in legal:
                 item["spec"] = "getBookMove returned %s which is not in the legal move list" % m
         stored = meta.get("stored")
-        if stored is not None and not item["spec"]:
+        if stored is not None and not item["spec"] and p["keyi"] in meta.get("stored_complete_for", ()):
             want = [(spec_decode(p, mv), w) for mv, w in stored.get(p["keyi"], [])]
             got = [(m, w) for m, _, w in R["cands"]]
             if want != got:
@@ -400,9 +423,7 @@ def run_stream(ctx, cpp, ml, tmpdir, pool, nbooks, ncalls, tag, max_fill=2500):
     books = []
     for i in range(nbooks):
         fault = rng.choice(FAULTS)
-        data, targets, meta = gen_book(rng, pool, fault, i % 16, max_fill)
-        extra = rng.sample(pool, min(len(pool), rng.choice([0, 1, 3])))
-        books.append((data, targets + extra, meta))
+        books.append(gen_book(rng, pool, fault, i % 16, max_fill, rng.choice([0, 1, 3])))
     per = max(1, (len(books) + NCPU - 1) // NCPU)
     chunks = [books[i:i + per] for i in range(0, len(books), per)]
     args = [(c, rng.getrandbits(48), i) for i, c in enumerate(chunks)]
@@ -483,7 +504,7 @@ def run_builtin(ctx, cpp, ml, pool, ncalls, diffs, spec_fail):
         ms.append("LEGAL " + " ".join(p["legal"]))
         ms.append("ENTS " + " ".join("%s:%d" % (m, w) for m, _, w in R.get("cands", [])))
         ms.append("PROBEB " + " ".join(str(r) for r, _, _ in R.get("calls", [])))
-    rc2, out2, err2 = sh([ml], input="\n".join(ms) + "\n", timeout=900)
+    rc2, out2, err2 = run_model(ml, "\n".join(ms) + "\n", timeout=900)
     ml_lines = [l for l in out2.split("\n") if l]
     if rc2 != 0 or len(ml_lines) != len(pool):
         diffs.append({"diff": "built-in book: model driver rc=%d %s" % (rc2, err2[-500:]), "pos": None, "data": None, "meta": {}})
@@ -533,7 +554,7 @@ def run_leaf(ctx, cpp, ml, pool, diffs):
 
     def both(stream_h, stream_m):
         a = run_harness(cpp, stream_h)
-        rc2, out2, err2 = sh([ml], input=stream_m, timeout=1800)
+        rc2, out2, err2 = run_model(ml, stream_m, timeout=1800)
         return a, (rc2, [l for l in out2.split("\n") if l], err2)
     per = max(1, (len(cmds) + NCPU - 1) // NCPU)
     parts = [cmds[i:i + per] for i in range(0, len(cmds), per)] + [codec]
@@ -563,15 +584,19 @@ def run_leaf(ctx, cpp, ml, pool, diffs):
     for p in pool:
         ms.append(pos_line(p))
         ms.append("PGBACK " + " ".join(str(x) for x in p["pg"]))
-    rc, out, err = sh([ml], input="\n".join(ms) + "\n", timeout=900)
+        ms.append("PGENC " + " ".join(p["legal"]))
+    rc, out, err = run_model(ml, "\n".join(ms) + "\n", timeout=900)
     ml_lines = [l for l in out.split("\n") if l]
-    if rc != 0 or len(ml_lines) != len(pool):
-        diffs.append({"diff": "PGBACK: model driver rc=%d" % rc, "pos": None, "data": None, "meta": {}})
+    if rc != 0 or len(ml_lines) != 2 * len(pool):
+        diffs.append({"diff": "PGBACK/PGENC: model driver rc=%d" % rc, "pos": None, "data": None, "meta": {}})
     else:
-        for p, l in zip(pool, ml_lines):
+        for i, p in enumerate(pool):
             ctx.count("pgmove_round_trips", len(p["pg"]))
-            if l != "M " + ",".join(p["legal"]):
-                diffs.append({"diff": "getMove(getPGMove(m)) != m: legal %s decoded %s" % (p["legal"], l), "pos": p, "data": None, "meta": {}})
+            if ml_lines[2 * i] != "M " + ",".join(p["legal"]):
+                diffs.append({"diff": "getMove(getPGMove(m)) != m: legal %s decoded %s" % (p["legal"], ml_lines[2 * i]), "pos": p, "data": None, "meta": {}})
+                break
+            if ml_lines[2 * i + 1] != "E " + ",".join(str(x) for x in p["pg"]):
+                diffs.append({"diff": "getPGMove: implementation %s model %s" % (p["pg"], ml_lines[2 * i + 1]), "pos": p, "data": None, "meta": {}})
                 break
 
 
@@ -596,13 +621,18 @@ def confirm_extremes(ctx, cpp, tmpdir, start):
         data = one_key_file(start, e2e4, ws[:-1]) + one_key_file(start, d2d4, ws[-1:])
         with open(paths[name], "wb") as f:
             f.write(data)
-    stream = "SEED 7\nFEN %s\n" % START_FEN
-    for name in ("sum_eq_2^30", "sum_gt_2^30"):
-        stream += "FILE %s\nPROBE 4 ! 4\n" % paths[name]
-    rc, lines, err = run_harness(cpp, stream, timeout=120)
-    out = {}
-    if rc != 0 or len(lines) != 3:
-        raise RuntimeError("extreme-input run failed: rc=%d lines=%s err=%s" % (rc, lines[:3], err[-300:]))
+    # the allowed boundary first, with a generous alarm; its run time calibrates the alarm that
+    # tells a hang from a slow machine
+    import time
+    t0 = time.time()
+    rc, l_ok, err = run_harness(cpp, "SEED 7\nFEN %s\nFILE %s\nPROBE 4 ! 120\n" % (START_FEN, paths["sum_eq_2^30"]), timeout=300)
+    t_ok = time.time() - t0
+    alarm = int(max(4, 4 * t_ok + 2))
+    rc2, l_hang, err2 = run_harness(cpp, "SEED 7\nFEN %s\nFILE %s\nPROBE 4 ! %d\n" % (START_FEN, paths["sum_gt_2^30"], alarm), timeout=300 + alarm)
+    out = {"alarm_s": alarm, "boundary_run_s": round(t_ok, 2)}
+    if rc != 0 or rc2 != 0 or len(l_ok) != 2 or len(l_hang) != 2:
+        raise RuntimeError("extreme-input run failed: rc=%d/%d lines=%s %s err=%s" % (rc, rc2, l_ok[:2], l_hang[:2], (err + err2)[-300:]))
+    lines = [l_ok[0], l_ok[1], l_hang[1]]
     r_ok = parse_R(lines[1])
     out["sum_eq_2^30"] = lines[1][:120]
     out["sum_gt_2^30"] = lines[2][:120]
@@ -626,7 +656,7 @@ def confirm_extremes(ctx, cpp, tmpdir, start):
                           key=KEY_HANG + ":other")
     # int overflow of the accumulator under UBSan (book.cpp, polyglot.cpp, random.cpp recompiled with the sanitizer)
     ub = stash(tmpdir, lambda: cbuild.build_harness("book_harness", extra_flags=SAN_UB, extra_srcs=SAN_SRCS), "book_harness_ubsan")
-    rc, lines, err = run_harness(ub, "FEN %s\nFILE %s\nPROBE 1 ! 4\n" % (START_FEN, paths["sum_gt_2^31"]), timeout=120)
+    rc, lines, err = run_harness(ub, "FEN %s\nFILE %s\nPROBE 1 ! %d\n" % (START_FEN, paths["sum_gt_2^31"], 3 * alarm), timeout=300 + 3 * alarm)
     res = lines[1] if len(lines) > 1 else "no output"
     out["sum_gt_2^31"] = "%s | %s" % (res[:60], err.strip().split("\n")[0][:200] if err.strip() else "")
     if "signed integer overflow" in err:
@@ -644,7 +674,7 @@ def confirm_extremes(ctx, cpp, tmpdir, start):
     p_in = os.path.join(tmpdir, "extreme-inside.bin")
     with open(p_in, "wb") as f:
         f.write(one_key_file(start, e2e4, [65535] * 32768))
-    rc, lines, err = run_harness(ub, "FEN %s\nFILE %s\nPROBE 1 ! 3\n" % (START_FEN, p_in), timeout=120)
+    rc, lines, err = run_harness(ub, "FEN %s\nFILE %s\nPROBE 1 ! %d\n" % (START_FEN, p_in, alarm), timeout=300 + alarm)
     ctx.count("extreme_ubsan_clean_below_2^31", 1 if "runtime error" not in err else 0)
     if "runtime error" in err:
         ctx.violation("UBSan reports an error with 32768 max-weight entries (inside the guard of C18_weight_sum_range)",
@@ -662,8 +692,7 @@ def finder(ctx, cpp, tmpdir, pool, first_items, nbooks, sanitized=None):
     books = [(it["data"], [it["pos"]], it["meta"]) for it in first_items if it.get("pos") is not None]
     for i in range(nbooks):
         fault = rng.choice(FAULTS)
-        data, targets, meta = gen_book(rng, pool, fault, i % 16)
-        books.append((data, targets + rng.sample(pool, min(len(pool), 2)), meta))
+        books.append(gen_book(rng, pool, fault, i % 16, 2500, 2))
     per = max(1, (len(books) + NCPU - 1) // NCPU)
     chunks = [books[i:i + per] for i in range(0, len(books), per)]
 
@@ -678,7 +707,7 @@ def finder(ctx, cpp, tmpdir, pool, first_items, nbooks, sanitized=None):
                     f.write(data)
             hs.append("FILE " + path)
             for p in probes:
-                hs += ["FEN " + p["fen"], "PROBE 6 ! 5"]
+                hs += ["FEN " + p["fen"], "PROBE 6 ! 20"]
                 idx.append((bi, p))
         rc, hl, err = run_harness(exe, "\n".join(hs) + "\n")
         bad = []
@@ -697,7 +726,7 @@ def finder(ctx, cpp, tmpdir, pool, first_items, nbooks, sanitized=None):
                     if m != "0.0.0" and m not in legal:
                         it["spec"] = "getBookMove returned %s, not legal" % m
                 st = meta.get("stored")
-                if st is not None and not it["spec"]:
+                if st is not None and not it["spec"] and p["keyi"] in meta.get("stored_complete_for", ()):
                     want = [(spec_decode(p, mv), w) for mv, w in st.get(p["keyi"], [])]
                     if want != [(m, w) for m, _, w in R["cands"]]:
                         it["spec"] = "well-formed book: stored %s, candidates %s" % (want, R["cands"])
@@ -793,7 +822,7 @@ def run(ctx):
                             cb.append((bytes.fromhex(c["file_hex"]) if c.get("file_hex") is not None else None, [p], {"fault": "corpus"}))
                 if cb:
                     account(ctx, correspond_chunk(1, cpp, ml, tmpdir, cb, 8, "corpus"), spec_fail, diffs, fatals)
-            items = run_stream(ctx, cpp, ml, tmpdir, pool, ctx.scale(640, 16000), ctx.scale(8, 8), "b",
+            items = run_stream(ctx, cpp, ml, tmpdir, pool, ctx.scale(640, 8000), ctx.scale(8, 8), "b",
                                max_fill=ctx.scale(2500, 60000))
             account(ctx, items, spec_fail, diffs, fatals)
             for it in items[:3]:
@@ -805,8 +834,7 @@ def run(ctx):
                 # statistical coverage: with many calls every positive-weight candidate is returned
                 cov_books = []
                 for i in range(60):
-                    data, targets, meta = gen_book(ctx.rng, pool, "none", 0, 300)
-                    cov_books.append((data, targets, meta))
+                    cov_books.append(gen_book(ctx.rng, pool, "none", 0, 300))
                 cov = correspond_chunk(ctx.rng.getrandbits(48), cpp, ml, tmpdir, cov_books, 600, "cov")
                 account(ctx, cov, spec_fail, diffs, fatals)
                 for it in cov:
